@@ -1,5 +1,6 @@
 import Grol.ParseSuite
 import Grol.Classes
+import Grol.LitFact
 /-
 Driver side of the `format` suite (C02, C03): parse, print (normal, compact), re-parse each
 printed text, print again; see harness/cmd/harness/format.go for the observation fields.
@@ -109,6 +110,15 @@ def runCase (prop : Prop') (inp obs : String) : CaseResult :=
   let (si, inn, ic) := stmt impl
   let history := !(impl.is "F.h" "0") && !(impl.is "L.h" "0") && !(impl.is "F.r" "0")
   let si := si && history
+  -- C03 also checks, on the real lexer's streams, the lexer fact the exactly-one-newline theorem assumes
+  let lf := prop != .c03 || ["F.toks", "L.toks", "F.n.toks", "F.c.toks"].all fun k =>
+    match impl.get k with
+    | none => true
+    | some ts => match parseStream ts with
+      | some s => litFactB s
+      | none => false
+  let si := si && lf
+  let sm := sm && lf
   let _ := inp
   let prog := match fr, lr with
     | some r, _ => if valid model "F." then r.program else (match lr with | some r' => r'.program | none => r.program)
